@@ -297,6 +297,10 @@ class GenSource:
             op["dtype"] = rng.choice(DTYPES)
             op["src_dtype"] = op["dtype"] if rng.random() < 0.5 else rng.choice(DTYPES)
             op["layout"] = rng.choice(NP_LAYOUTS)
+            if rng.random() < 0.12:
+                # the source is a permuted view of the destination itself (x.v = x.v[::-1], m = m.T)
+                op["layout"] = rng.choice(["self_rev", "self_T"])
+                op["src_dtype"] = op["dtype"]
         return op
 
     def _read(self, w, live):
@@ -696,7 +700,19 @@ class BufSim:
                 dt = np.dtype(op["dtype"])
                 sdt = np.dtype(op["src_dtype"])
                 n = ln // dt.itemsize
-                val, contiguous = _mk_nparray(op["seed"], sdt, n, op["layout"])
+                if op["layout"] in ("self_rev", "self_T"):
+                    m = int(n**0.5)
+                    if op["layout"] == "self_T" and m >= 2:
+                        n = m * m
+                        val = buf.to_nplike(off, dt, (m, m)).T
+                    else:
+                        if n < 2:
+                            return
+                        val = buf.to_nplike(off, dt, (n,))[::-1]
+                    contiguous = False
+                    res.probe("nplike_source_is_permuted_view_of_destination")
+                else:
+                    val, contiguous = _mk_nparray(op["seed"], sdt, n, op["layout"])
                 feat += f":{op['layout']}:{'conv' if sdt != dt else 'same'}"
                 # independent expectation: C-order flattening after conversion
                 with np.errstate(all="ignore"):
